@@ -105,3 +105,12 @@ pub fn name(prefix: &str, i: usize) -> String {
     s.push_str(d);
     s
 }
+
+/// the chain a scenario drives: p7 == 1 selects the complete global chain, otherwise only the slots in `mask`
+pub fn chain_for(s: &crate::Shape, mask: u32) -> Arc<sentinel_core::base::SlotChain> {
+    if s.p[7] == 1 {
+        sentinel_core::api::global_slot_chain()
+    } else {
+        sentinel_core::verif::slot_chain_of(mask, None)
+    }
+}
